@@ -323,6 +323,8 @@ func c12History(g *Gen) (int, []string, int, string, int, []int32) {
 			size := g.R.Pick(0, 0, 1, 5, 63, 64, 65, 100, 128, 300)
 			if g.R.Intn(3) == 0 {
 				size = g.R.Intn(260)
+			} else if g.R.Intn(10) == 0 {
+				size = g.R.Pick(1024, 1100, 2100) // relative positions with more than 10 bits
 			}
 			ps := []int32{}
 			if g.R.Intn(6) > 0 {
